@@ -168,6 +168,17 @@ def check_bitserial(ctx, rep, tier):
                 rep.finding('C06 constructor %s initial-state' % f['path'].split('::')[-1],
                             '%s (at %s) builds %s, new() builds %s: the first frame is decoded from a different state' % (
                                 f['path'], f['sp'], term_str(l2[0].ret) if l2 else '?', term_str(state0)))
+    from .extract import observer_fields
+    from .rules_event import KNOWN_API
+    obs = observer_fields(ctx, PS2, KNOWN_API)
+    if obs:
+        rep.note('Ps2Decoder fields %s only observe the decoding (not part of its state)' % sorted(prog.adt(PS2)['variants'][0]['fields'][i]['name'] for i in obs))
+
+    def norm(v):
+        # observer-only fields (a frame counter ...) are not decoder state: compared and carried at their initial value
+        if obs and v is not None and v[0] == 'adt':
+            return ('adt', v[1], v[2], tuple(state0[3][i] if i in obs else x for i, x in enumerate(v[3])))
+        return v
     NB = 11
     # abstract states: list of (ghost cube, decoder value); ghost atom b<i> = i-th bit shifted in
     states = [({}, state0)]
@@ -205,7 +216,7 @@ def check_bitserial(ctx, rep, tier):
                     rep.ob('bit %d' % (k + 1), 1, 0)
                     rep.finding('C06 bit=%d panics' % (k + 1), 'shifting in bit %d of a frame can panic: %s' % (k + 1, leaf_where(lf)))
                     continue
-                post = lf.cells[('H', 'self')]
+                post = norm(lf.cells[('H', 'self')])
                 if k < NB - 1:
                     r = lf.ret
                     if value_atoms(r) or conc(r) != ('core::result::Result', 0, (('core::option::Option', 0, ()),)):
@@ -255,7 +266,7 @@ def check_bitserial(ctx, rep, tier):
         for doms, val in states:
             e, lvs = run_from(f_clear, doms, val)
             for lf in lvs:
-                if lf.kind != 'return' or lf.cells[('H', 'self')] != state0:
+                if lf.kind != 'return' or norm(lf.cells[('H', 'self')]) != state0:
                     rep.ob('clear()', 1, 0)
                     rep.finding('C06 clear after=%d bits' % k,
                                 'clear() with %d bits of a partial frame shifted in does not restore the initial state (%s); %s' % (
